@@ -351,6 +351,10 @@ EXH_OPS = [
      "strict": False, "inplace": False, "mask": M1},
     {"op": "update_ids", "axis": "sample", "style": "swap", "strict": True,
      "inplace": True, "mask": M1},
+    {"op": "update_ids", "axis": "observation", "style": "collide",
+     "strict": True, "inplace": False, "mask": M1},
+    {"op": "transform", "axis": "observation", "fn": "zero_all",
+     "inplace": True},
     {"op": "add_metadata", "axis": "sample", "mask": M1, "key": "new",
      "unknown": True},
     {"op": "add_metadata", "axis": "observation", "mask": M2, "key": "k",
